@@ -106,7 +106,9 @@ theorem timestampEncode_eq (field : Int) (t : GoTime.T) (c : Bytes) :
       = if Time.isZero t.1 t.2 then .ok (t, c, false)
         else .ok (t, c ++ GoTime.secNanosMessage field t.1 (Time.wrap32 t.2), true) := by
   unfold GoSrc.Pico.timestampEncode GoTime.isZero GoTime.unix GoTime.nanosecond
-  simp [wrapS32_eq]
+  first
+  | (simp [wrapS32_eq]; done)
+  | (simp only [wrapS32_eq, bind, Res.bind, pure]; grind)
 
 /-- `Timestamp.PicoDecode` as translated: `time.Unix(seconds, nanos).UTC()` of the two fields read -/
 theorem timestampDecode_eq (field : Int) (t : GoTime.T) (c : Dec.Dec) :
@@ -117,9 +119,11 @@ theorem timestampDecode_eq (field : Int) (t : GoTime.T) (c : Dec.Dec) :
           pure (Time.unixNorm r.2.1 r.2.2, r.1)) := by
   unfold GoSrc.Pico.timestampDecode GoTime.utc GoTime.ofUnix
   simp only [GoTie.D.pendingField_eq]
-  by_cases hp : c.cur.pendingField ≠ field
-  · simp [hp]
-  · simp only [hp, if_false]
+  first
+  | (by_cases hp : c.cur.pendingField ≠ field
+     · simp [hp]
+     · simp only [hp, if_false])
+  | (simp only [bind, Res.bind, pure]; grind)
 
 /-- the model's cast `Gen2.durEncode` appends exactly what the translated `Duration.PicoEncode` appends -/
 theorem durEncode_model (field : Int) (d : Int) (hd : Time.I64 d) :
